@@ -78,6 +78,65 @@ CLAIMED.update({
         "design": "DESIGN.md section 3 C20",
     },
 })
+CLAIMED.update({
+    "C05": {
+        "text": "Engine-F key-determinacy clauses (half (ii) of cache transparency): for the T1 stage cache, the T2 stage cache and the turn-level "
+                "cache, every declared input of the fresh computation that is read after the lookup, and every configuration key read after "
+                "the lookup, feeds the key expression (name-level dependency closure over the bindings preceding the lookup, computed from "
+                "the AST on every run); the graph etag used as version component hashes graph content. Half (i) (a hit returns the value "
+                "stored under an equal key) is the C15 container contracts. Four violated clauses were repaired in /repo (fix: commits), "
+                "two are recorded as known findings.",
+        "note": "Name-level closure: a whole object (ctx, state, index) counts as feeding the key when any value derived from it does; "
+                "index_version() and state.version_etag are trusted to change with content; TTL vs the real clock, memory pressure and the "
+                "relational claim over mutation histories are not decided.",
+        "design": "DESIGN.md section 3 C05",
+    },
+    "C09": {
+        "text": "Contract-based deductive proof of run_parallel over opaque tasks with an arbitrary failing subset: both branches hand merge_fn "
+                "every (key, result) once, ordered by (order_key, submit index); failures: merge not called, sequential stops at the first, "
+                "the pool reports every failure sorted; all run_parallel call sites in /repo satisfy its precondition (AST obligations); "
+                "merge_tier_hits_across_shards_dict (<= k distinct ids, tier order, (-qscore,id)), _iter_shards_for_t2 (contiguous partition).",
+        "note": "ThreadPoolExecutor.submit/Future.result is a trusted model (results read in submit order). Equality of the parallel and "
+                "sequential T1/T2 stage results (fold equivalence, shard path vs. tier walk) is NOT decided by this check; real thread "
+                "interleavings are not modelled. Precondition k >= 1 on the shard merge.",
+        "design": "DESIGN.md section 3 C09",
+    },
+    "C10": {
+        "text": "Contract-based deductive proof of _select_independent_batch (subsequence, <= max(1,workers), pairwise disjoint graph sets, "
+                "greedy-maximal), _resolve_graphs_for_agent (never raises), _sort_turn_buffers (stable permutation by (turn, slice)), and "
+                "the two drain-flush-retry regions of _run_agents_parallel_batch against the LogStager interface: record staged last, "
+                "whole buffer flushed in drain order on back-pressure, nothing lost or duplicated, no exception for any byte limit >= 1.",
+        "note": "The LogStager interface used by the regions is an assumed contract here (the class itself is under contract in C16). "
+                "Equality of batch and sequential execution with the real stage pipeline is not decided (the dry-run path skips T3: see DESIGN).",
+        "design": "DESIGN.md section 3 C10",
+    },
+})
+CLAIMED.update({
+    "C08": {
+        "text": "Contract-based deductive proof of _make_tmp, atomic_write_bytes (Path and str destinations, KeyboardInterrupt and short-write "
+                "variants), atomic_replace (retry loop with an unbounded invariant), atomic_write_text/json over an abstract file system in "
+                "which every I/O primitive forks into a failing path: the crash invariant content(final) in {old, complete new} is proved at "
+                "entry and after every effect (including a write killed half way), the only writer of final is os.replace(tmp, final), on "
+                "normal exit final == new and no temp is left, every new file other than final is one of the call's own temps, whose names "
+                "(lemma, z3 strings) never look like snapshot or log files; callers reach their destination only through atomic_write_*.",
+        "note": "The file system is a trusted model (pyvc/fsmodel.py): os.replace atomic and all-or-nothing, raw write all-or-error unless the "
+                "short_write option is on, buffered handles complete-or-raise. Durability after power loss, directories/permissions/symlinks "
+                "and real concurrent readers are not modelled. Preconditions: tmp != final, retries >= 1, backoff_ms >= 0.",
+        "design": "DESIGN.md section 3 C08",
+    },
+    "C16": {
+        "text": "Contract-based deductive proof of normalize_for_identity (only the documented volatile keys of the identity streams change, "
+                "input not mutated, idempotent), LogStager (bytes = sum of estimates, back-pressure iff buffered and over the limit, sorted "
+                "drain, drain-then-stage never raises for any byte limit), default_key_for, _append_jsonl_unbuffered (one 'ab' open, one "
+                "write of one LF-terminated line), append_jsonl / LogMux / flush (captured xor written, in order), rewrite_jsonl (line i = "
+                "canonical dump of record i through atomic_write_text), rotate_one (generations shift by one, only the oldest dropped, also "
+                "when a rename fails).",
+        "note": "json.dumps is an uninterpreted function with the trusted fact 'no raw LF/CR in the output'; bytes are modelled as text; "
+                "open/write and the rotation name space are small trusted models; O_APPEND atomicity and concurrent writers from several "
+                "processes are assumed, not proved; rotate_one's failure clauses are proved for 1 and 2 kept generations.",
+        "design": "DESIGN.md section 3 C16",
+    },
+})
 PENDING_REASON = "check not built yet (construction in progress, see DESIGN.md section 3)"
 NA = {}
 
